@@ -139,7 +139,39 @@ def run(tier):
                      "capacities {3,4,6,9,100} (DSA footprints are 1-4), symmetric route costs {1,2,5}, hosting costs {0,3,8} with lower-case agent names or - every other run - {1,2,5} (ties with the route costs), ample capacities and upper-case names, or - one run in five - decimal costs (0.1 .. 0.7) (which sort before the search's own '__hosting__' node), placements and k in 1..3; 2 (quick) / 6 seeded interleavings of agent "
                      "loop iterations per deployment; with 4 agents or more, the first run of each deployment goes on with the departure of the agent that "
                      "holds replicas of the most owners (stopped, no repair) and the acceptances of the re-replication are judged by the same rule; "
-                     "non-trivial = at least one replica was accepted")
+                     "non-trivial = at least one replica was accepted. MODEL: Ucs.tla, the message-level model of the uniform-cost search (request / answer handlers, sorted path tables "
+                     "with Python's ordering of names and of the '__hosting__' pseudo-node, the generator over the live table, budget increase at the owner, the "
+                     "agent's own k_target in the capacity test) checked by TLC over every interleaving of replicate() calls and FIFO deliveries on TLC-drawn "
+                     "deployments (3 agents quick, 3-4 thorough; tight and ample capacities; names sorting before / after '__hosting__'; hosting costs tying with "
+                     "route costs): invariants QuietMeansDone + no deadlock (termination), AcceptRule, ReplicasSafe, HostsAreHolders, ToldEverything, OneToken, "
+                     "CountConsistent, TablesSorted, NoHandlerError; every explored transition replayed on real UCSReplication objects (real Discovery and "
+                     "AgentDef, stub agent) with the held replicas, pending requests, reported hosts and every message (budget, spent, paths table, visited, "
+                     "hosts) compared")
+    # ---- the message-level model of the search (Ucs.tla): every interleaving, every transition replayed on real UCSReplication objects
+    from .. import ucsmodel as UM
+    uinsts = []
+    for inst in [i for i in insts if i["shape"] in (("path3", "triangle", "fork3") if quick else ("path3", "triangle", "fork3", "star4", "path4"))]:
+        comps = list(inst["vars"])
+        cnbr = {c: sorted({x for con in inst["cons"] if c in con["scope"] for x in con["scope"] if x != c}) for c in comps}
+        for nag in ((3,) if quick else (3, 4)):
+            if not quick and nag == 4 and len(comps) > 3:
+                continue
+            deps, dres = CC.generate("Gen_C25", consts=dict(NAg=nag, NComp=len(comps), NCases=2 if quick else 4, Caps={3, 4, 6, 9, 100}, Ks={1, 2} if nag == 3 else {1, 2, 3}),
+                                     workers=2, seed=seed() + 700 + nag * 10 + len(comps) + len(uinsts))
+            v.add_tlc(dres, "deployments for Ucs.tla (Gen_C25, %d agents, %d computations)" % (nag, len(comps)))
+            for j, dep in enumerate(deps):
+                if quick and j % 3:
+                    continue
+                # footprints in the model harness are 2-3: capacities {3,4,6,9} are tight against them
+                uinsts.append(UM.deployment_of(dep, cnbr, comps, upper=(j % 2 == 1), ties=(j % 4 >= 2)))
+    if quick:
+        uinsts = uinsts[:16]
+    tot = UM.model_part(v, uinsts, tier)
+    v.cov["ucs_model"] = tot
+    for bad in tot.get("model_invariant_violations", []):
+        # an invariant of the model fails: the counterexample is executed on the real objects; only what the REAL objects do is judged
+        from ..common import MachineryError as ME
+        raise ME("Ucs.tla: %s violated in the model: %s" % (bad["what"], json.dumps(bad["acts"])[:600]))
     v.cov["trusted_base"] = ["TLC (Replication.tla)", "vlib/orchrt.py + vlib/agentrt.py", "the acceptance recorder wrapped around UCSReplication._accept_replica"]
     v.assumptions = ["route tables are symmetric (the YAML format enforces it; the UCS budget arithmetic assumes it)",
                      "footprints are compared as integers (DSA footprints are whole numbers)"]
